@@ -243,7 +243,10 @@ func legacyPlans(seed uint64, n, maxCalls, quota int) []plan {
 }
 
 func one(w *bufio.Writer, seed uint64, n int, all bool, quota int, only string, pairs int) {
-	s, twin, maxCalls := genTwin(w, seed, n, false)
+	// explicit plans and pair plans compare the whole database with the twin's at the end: the twin
+	// must have recorded it (RunTwinInfo)
+	info := (all && pairs > 0) || strings.HasPrefix(only, "v") || strings.Contains(only, "+")
+	s, twin, maxCalls := genTwin(w, seed, n, info)
 	if s == nil {
 		return
 	}
